@@ -1,6 +1,7 @@
 package main
 
 import (
+	"strconv"
 	"fmt"
 	"go/token"
 	"go/types"
@@ -627,6 +628,14 @@ func (c *FnCtx) binop(x *ssa.BinOp) {
 			}
 		}
 	case token.OR, token.XOR, token.AND_NOT:
+		if av, err1 := strconv.ParseInt(a, 10, 64); err1 == nil && av >= 0 {
+			if bv, err2 := strconv.ParseInt(b, 10, 64); err2 == nil && bv >= 0 {
+				// both operands are non-negative literals: the exact value
+				v := map[token.Token]int64{token.OR: av | bv, token.XOR: av ^ bv, token.AND_NOT: av &^ bv}[x.Op]
+				c.def(x, c.wrap(num(v), t))
+				return
+			}
+		}
 		r := c.defFresh(x)
 		c.assume(eq(r, c.bitop(map[token.Token]string{token.OR: "or", token.XOR: "xor", token.AND_NOT: "andnot"}[x.Op], a, b, t)))
 		_, _, _, signed := intRange(t)
